@@ -22,6 +22,8 @@ pub struct GResp {
     pub chunk_sizes: Vec<usize>,
     pub pieces: Vec<usize>,
     pub pause_us: u64,
+    /// the last bytes of the response (e.g. the chunked terminator) are written separately, after a pause
+    pub tail_split: u8,
 }
 
 #[derive(Clone, Debug, Serialize, Deserialize, Hash)]
@@ -37,6 +39,8 @@ pub struct ConnPlan {
     pub exchanges: Vec<Exch>,
     /// send all requests before reading any response
     pub burst: bool,
+    /// the exchange list is run this many times on the connection (keep-alive storm; > 1 only with small bodies)
+    pub rounds: u8,
 }
 
 #[derive(Clone, Debug, Serialize, Deserialize, Hash)]
@@ -66,8 +70,9 @@ pub fn gresp() -> impl Strategy<Value = GResp> {
         prop::collection::vec(1usize..3000, 0..4),
         prop::collection::vec(1usize..2000, 0..4),
         prop_oneof![4 => Just(0u64), 1 => 50u64..400],
+        prop_oneof![3 => Just(0u8), 1 => Just(5u8), 1 => Just(2u8), 1 => 1u8..40],
     )
-        .prop_map(|(status, hs, body, framing, chunk_sizes, pieces, pause_us)| GResp {
+        .prop_map(|(status, hs, body, framing, chunk_sizes, pieces, pause_us, tail_split)| GResp {
             status,
             headers: hs.into_iter().map(|(i, m, v)| (gen::flip_case(RESP_HNAMES[i], m), v)).collect(),
             body,
@@ -75,6 +80,7 @@ pub fn gresp() -> impl Strategy<Value = GResp> {
             chunk_sizes,
             pieces,
             pause_us,
+            tail_split,
         })
 }
 
@@ -105,13 +111,13 @@ fn exch() -> impl Strategy<Value = Exch> {
 
 pub fn strategy() -> impl Strategy<Value = Case> {
     (
-        prop::collection::vec((authorised_rec(), prop::collection::vec(exch(), 1..5), prop::bool::weighted(0.25)), 1..4),
+        prop::collection::vec((authorised_rec(), prop::collection::vec(exch(), 1..5), prop::bool::weighted(0.25), prop_oneof![5 => Just(1u8), 1 => 8u8..40]), 1..4),
         prop::option::weighted(0.5, (crate::props::c04::guid(), crate::props::c04::key_hex())),
     )
         .prop_map(|(conns, key)| Case {
             conns: conns
                 .into_iter()
-                .map(|(rec, mut exchanges, burst)| {
+                .map(|(rec, mut exchanges, burst, rounds)| {
                     let n = exchanges.len();
                     for (i, e) in exchanges.iter_mut().enumerate() {
                         // a close-delimited response ends the connection: only on the last exchange
@@ -119,14 +125,36 @@ pub fn strategy() -> impl Strategy<Value = Case> {
                             e.resp.framing = 1;
                         }
                     }
-                    ConnPlan { rec, exchanges, burst }
+                    let small = exchanges.iter().all(|e| e.req.body.len() < 5000 && e.resp.body.len() < 5000 && e.resp.framing != 2);
+                    let rounds = if small && !burst { rounds } else { 1 };
+                    ConnPlan { rec, exchanges, burst, rounds }
                 })
                 .collect(),
             key,
         })
 }
 
-pub const RULE: &str = "generator: 1-3 client connections run concurrently, each attributed to an authorised caller/destination and carrying 1-4 requests on one keep-alive connection (sequentially, or all written before any response is read): method in {GET,POST,PUT,DELETE,PATCH,HEAD,OPTIONS}, target, header set, body 0 bytes .. exactly the 100 KiB limit as Content-Length or chunked with generated chunk sizes and write boundaries; host responses: status from 200..599 (no 1xx), header multiset incl. repeated Set-Cookie and a host-side x-ms-azure-host-claims, body 0..400 KB binary as Content-Length / chunked with generated chunk sizes / close-delimited, written in generated pieces with optional pauses. Every request and response carries a unique tag. oracle: host side - method, target, de-framed body byte-equal, client header lines other than the three proxy-owned names equal as a multiset with order kept among equal names; client side - status, header lines plus exactly one x-ms-azure-host-authorization marker, body byte-equal, response tag = request tag; framing headers, Connection and Date exempt on both legs. non-trivial: an exchange with non-empty bodies in both directions and a multi-frame response, or >= 3 requests on one connection with >= 2 connections active; distinct by hash of the case.";
+/// keep-alive storms: 4-6 connections at once, each repeating 1-3 small exchanges 20-40 times back to back,
+/// responses mostly chunked in several late pieces. Aims at schedule-dependent failures of the
+/// per-connection upstream sender (a request arriving right after the previous response completed).
+pub fn storm_strategy() -> impl Strategy<Value = Case> {
+    let small_exch = exch().prop_map(|mut e| {
+        e.req.body.truncate(64);
+        e.resp.body.truncate(3000);
+        if e.resp.framing == 2 {
+            e.resp.framing = 1;
+        }
+        e.resp.pause_us = e.resp.pause_us.min(60);
+        e
+    });
+    (
+        prop::collection::vec((authorised_rec(), prop::collection::vec(small_exch, 1..4), 20u8..40), 4..7),
+        prop::option::weighted(0.5, (crate::props::c04::guid(), crate::props::c04::key_hex())),
+    )
+        .prop_map(|(conns, key)| Case { conns: conns.into_iter().map(|(rec, exchanges, rounds)| ConnPlan { rec, exchanges, burst: false, rounds }).collect(), key })
+}
+
+pub const RULE: &str = "generator: 1-3 client connections run concurrently, each attributed to an authorised caller/destination and carrying 1-4 requests on one keep-alive connection (sequentially, or all written before any response is read, or - with small bodies - the list repeated 8-39 times back to back: a keep-alive storm): method in {GET,POST,PUT,DELETE,PATCH,HEAD,OPTIONS}, target, header set, body 0 bytes .. exactly the 100 KiB limit as Content-Length or chunked with generated chunk sizes and write boundaries; host responses: status from 200..599 (no 1xx), header multiset incl. repeated Set-Cookie and a host-side x-ms-azure-host-claims, body 0..400 KB binary as Content-Length / chunked with generated chunk sizes / close-delimited, written in generated pieces with optional pauses, the last bytes (e.g. the chunked terminator) optionally in a separate late write. Every request and response carries a unique tag. oracle: host side - method, target, de-framed body byte-equal, client header lines other than the three proxy-owned names equal as a multiset with order kept among equal names; client side - status, header lines plus exactly one x-ms-azure-host-authorization marker, body byte-equal, response tag = request tag; framing headers, Connection and Date exempt on both legs. non-trivial: an exchange with non-empty bodies in both directions and a multi-frame response, or >= 3 requests on one connection with >= 2 connections active; distinct by hash of the case.";
 
 const EXEMPT: &[&str] = &["content-length", "transfer-encoding", "connection", "keep-alive", "date", "te", "trailer", "upgrade"];
 const PROXY_OWNED: &[&str] = &["x-ms-azure-host-claims", "x-ms-azure-host-date", "x-ms-azure-host-authorization"];
@@ -158,7 +186,8 @@ pub fn eval(rig: &Rig, case: &Case, stats: &mut Stats) -> Outcome {
     let mut sent: BTreeMap<String, (usize, usize)> = BTreeMap::new();
     for (ci, c) in case.conns.iter().enumerate() {
         for (ei, e) in c.exchanges.iter().enumerate() {
-            let tag = format!("c{}e{}", ci, ei);
+          for round in 0..c.rounds.max(1) {
+            let tag = format!("c{}e{}r{}", ci, ei, round);
             let mut headers: Vec<(String, Vec<u8>)> = e.resp.headers.iter().map(|(n, v)| (n.clone(), v.as_bytes().to_vec())).collect();
             headers.push(("x-resp-tag".into(), tag.as_bytes().to_vec()));
             let spec = ResponseSpec {
@@ -175,9 +204,11 @@ pub fn eval(rig: &Rig, case: &Case, stats: &mut Stats) -> Outcome {
                 pause_us: e.resp.pause_us,
                 reset: false,
                 delay_ms: 0,
+                tail_split: e.resp.tail_split as usize,
             };
             specs.lock().unwrap().insert(tag.clone(), spec);
             sent.insert(tag, (ci, ei));
+          }
         }
     }
     {
@@ -187,6 +218,7 @@ pub fn eval(rig: &Rig, case: &Case, stats: &mut Stats) -> Outcome {
             specs.lock().unwrap().get(&tag).cloned().unwrap_or_else(|| ResponseSpec::status(418, b"untagged"))
         }));
     }
+    let t_case = std::time::Instant::now();
     // run the connections concurrently
     let results: Vec<Result<ConnResult, String>> = std::thread::scope(|sc| {
         let handles: Vec<_> = case
@@ -197,23 +229,35 @@ pub fn eval(rig: &Rig, case: &Case, stats: &mut Stats) -> Outcome {
                 sc.spawn(move || -> Result<ConnResult, String> {
                     let mut conn = rig.open(Some(rig.entry_of(&c.rec)), 0)?;
                     let mut responses = Vec::new();
-                    let wires: Vec<Vec<u8>> = c
-                        .exchanges
-                        .iter()
-                        .enumerate()
-                        .map(|(ei, e)| e.req.wire(&e.req.url.text(), &[("x-tag".to_string(), format!("c{}e{}", ci, ei).into_bytes())]))
-                        .collect();
+                    let rounds = c.rounds.max(1);
+                    let wire_of = |ei: usize, round: u8| -> Vec<u8> {
+                        let e = &c.exchanges[ei];
+                        e.req.wire(&e.req.url.text(), &[("x-tag".to_string(), format!("c{}e{}r{}", ci, ei, round).into_bytes())])
+                    };
                     if c.burst {
-                        for (e, w) in c.exchanges.iter().zip(&wires) {
-                            conn.send_pieces(w, &e.req_pieces).map_err(|e| format!("send: {}", e))?;
-                        }
-                        for e in &c.exchanges {
-                            responses.push(conn.read(&e.req.method, Duration::from_secs(30)).map_err(|e| format!("{:?}", e)));
-                        }
+                        // writer thread: a client that pipelines must keep reading while it writes
+                        let mut w = conn.stream.try_clone().map_err(|e| e.to_string())?;
+                        let _ = w.set_write_timeout(Some(Duration::from_secs(30)));
+                        let wires: Vec<(Vec<u8>, Vec<usize>)> = (0..c.exchanges.len()).map(|ei| (wire_of(ei, 0), c.exchanges[ei].req_pieces.clone())).collect();
+                        std::thread::scope(|s2| {
+                            s2.spawn(move || {
+                                for (wb, pieces) in &wires {
+                                    if crate::rawhttp::write_pieces(&mut w, wb, pieces, Duration::ZERO).is_err() {
+                                        break;
+                                    }
+                                }
+                            });
+                            for e in &c.exchanges {
+                                responses.push(conn.read(&e.req.method, Duration::from_secs(30)).map_err(|e| format!("{:?}", e)));
+                            }
+                        });
                     } else {
-                        for (e, w) in c.exchanges.iter().zip(&wires) {
-                            conn.send_pieces(w, &e.req_pieces).map_err(|e| format!("send: {}", e))?;
-                            responses.push(conn.read(&e.req.method, Duration::from_secs(30)).map_err(|e| format!("{:?}", e)));
+                        let _ = conn.stream.set_write_timeout(Some(Duration::from_secs(30)));
+                        for round in 0..rounds {
+                            for (ei, e) in c.exchanges.iter().enumerate() {
+                                conn.send_pieces(&wire_of(ei, round), &e.req_pieces).map_err(|e| format!("send: {}", e))?;
+                                responses.push(conn.read(&e.req.method, Duration::from_secs(30)).map_err(|e| format!("{:?}", e)));
+                            }
                         }
                     }
                     crate::rawhttp::close_abortive(conn.stream);
@@ -225,12 +269,18 @@ pub fn eval(rig: &Rig, case: &Case, stats: &mut Stats) -> Outcome {
     });
     rig.mock.set_responder(Box::new(|_r| ResponseSpec::ok(b"mock")));
     let recorded = rig.mock.take_requests();
+    if t_case.elapsed() > Duration::from_millis(700) && std::env::var("VERIF_DEBUG_SLOW").is_ok() {
+        eprintln!("[slow-case] {:?} conns: {:?}", t_case.elapsed(), case.conns.iter().map(|c| (c.burst, c.rounds, c.exchanges.iter().map(|e| (e.req.method.clone(), e.req.body.len(), e.req.chunked.is_some(), e.resp.status, e.resp.framing, e.resp.body.len(), e.resp.pieces.len(), e.resp.pause_us, e.resp.tail_split)).collect::<Vec<_>>())).collect::<Vec<_>>());
+    }
 
     // classification / non-triviality
     let mut nontrivial = false;
     let active = case.conns.len();
     for c in &case.conns {
-        if c.exchanges.len() >= 3 && active >= 2 {
+        if c.rounds > 1 {
+            stats.class("conn:keep-alive-storm(>=8 rounds)");
+        }
+        if c.exchanges.len() * c.rounds.max(1) as usize >= 3 && active >= 2 {
             nontrivial = true;
         }
         for e in &c.exchanges {
@@ -296,9 +346,11 @@ pub fn eval(rig: &Rig, case: &Case, stats: &mut Stats) -> Outcome {
             Ok(r) => r,
             Err(e) => return Outcome::fail("transparency:client-connection-failed", format!("connection {}: {}", ci, e)),
         };
-        for (ei, resp) in res.responses.iter().enumerate() {
+        let n_ex = case.conns[ci].exchanges.len();
+        for (ri, resp) in res.responses.iter().enumerate() {
+            let (ei, round) = (ri % n_ex, ri / n_ex);
             let e = &case.conns[ci].exchanges[ei];
-            let tag = format!("c{}e{}", ci, ei);
+            let tag = format!("c{}e{}r{}", ci, ei, round);
             let resp = match resp {
                 Ok(r) => r,
                 Err(err) => return Outcome::fail("transparency:no-response-for-relayed-request", format!("{} ({} {} -> host status {}, framing {}): {}", tag, e.req.method, e.req.url.text(), e.resp.status, e.resp.framing, err)),
